@@ -1,5 +1,5 @@
 import Driver.Proto
-import Model.Extract
+import Model.ExtractR
 open Proto Ex
 
 /-! Driver of C19.  One line = one sandbox + one archive:
@@ -164,16 +164,16 @@ def step (_ : Unit) (line : String) : Unit × String :=
           let opened := !(via == "v:missing" || (via == "v:cut" && zip))
           let run (fs : FS) : FS × Bool :=
             match via, zip with
-            | "v:x", false => tarExtractDefault fs dstRoot es
-            | "v:x", true => zipExtractDefault fs dstRoot es
-            | "v:a", false => tarExtractArchive true fs dstRoot es
-            | "v:a", true => zipExtractArchive true fs dstRoot es
-            | "v:am", false => tarExtractArchiveWithMask true fs dstRoot mk es
-            | "v:am", true => zipExtractArchiveWithMask true fs dstRoot mk es
-            | "v:", false => tarExtract fs dstRoot mk es
-            | "v:", true => zipExtract fs dstRoot mk es
-            | _, false => if mk == 0 then tarExtractArchive opened fs dstRoot es else tarExtractArchiveWithMask opened fs dstRoot mk es
-            | _, true => if mk == 0 then zipExtractArchive opened fs dstRoot es else zipExtractArchiveWithMask opened fs dstRoot mk es
+            | "v:x", false => tarExtractDefaultR fs dstRoot es
+            | "v:x", true => zipExtractDefaultR fs dstRoot es
+            | "v:a", false => tarExtractArchiveR true fs dstRoot es
+            | "v:a", true => zipExtractArchiveR true fs dstRoot es
+            | "v:am", false => tarExtractArchiveWithMaskR true fs dstRoot mk es
+            | "v:am", true => zipExtractArchiveWithMaskR true fs dstRoot mk es
+            | "v:", false => tarExtractR fs dstRoot mk es
+            | "v:", true => zipExtractR fs dstRoot mk es
+            | _, false => if mk == 0 then tarExtractArchiveR opened fs dstRoot es else tarExtractArchiveWithMaskR opened fs dstRoot mk es
+            | _, true => if mk == 0 then zipExtractArchiveR opened fs dstRoot es else zipExtractArchiveWithMaskR opened fs dstRoot mk es
           let word (b : Bool) := if b then "ok" else "err"
           let r := run fs
           -- `r:2`: the same archive is extracted a second time into what the first run left
